@@ -1205,3 +1205,56 @@ wrap_l2('C10', ALL3, 'safety', {'Compat', 'WordOK'}, b2_lock_abs(['CkConvAtomic'
 wrap_l2('C11', ('mcs',), 'safety', {'Fifo'}, b2_lock_abs(['CkFifo'], fifo=True))
 wrap_l2('C12', ('mcs',), 'safety', {'NodeSafe', 'GuardNodes', 'LiveBound', 'FreeAtEnd'}, b2_nodes)
 wrap_l2('C13', ('opt',), 'safety', {'PrepareOK', 'SampleOK', 'Compat'}, b2_lock_abs(['CkPrepare', 'CkOptimistic', 'CkGuards', 'CkProgress']))
+
+
+def add_level2_id(res, prop, tier, seed, want):
+    cov = res['coverage']
+    notes = res.setdefault('notes', [])
+    l2 = {}
+    for n in cov.get('capacities', [1, 2]):
+        conf = level2.id_conformance(n, tier, seed)
+        entry = {'conformance': {k: conf[k] for k in ('ok', 'streams', 'executions', 'events', 'states', 'rejected')},
+                 'exit_order_observed': conf['exit_order'], 'model_checking': None}
+        l2['N=%d' % n] = entry
+        cov['states'] += conf['states']
+        cov['transitions'] += conf['transitions']
+        cov['traces_validated_against_impl'] += conf['executions']
+        if not conf['ok']:
+            msg = ('MODEL-DRIFT property=%s capacity=%d: the real code no longer follows IdImpl (exit order observed: %s, first '
+                   'rejected: %s); the Level-2 result is void, the verdict rests on the explored real executions'
+                   % (prop, n, conf['exit_order'], conf['rejected'][:1]))
+            log(msg)
+            notes.append(msg)
+            continue
+        r = level2.id_model_check(n, conf['exit_order'], tier, want)
+        entry['model_checking'] = r
+        cov['states'] += r['states']
+        cov['transitions'] += r['transitions']
+        if r['violated']:
+            confirmed = any('cap:%d' % n in v.get('signature', []) for v in res['violations'])
+            msg = ('IdImpl (capacity %d, exit order %s as observed in the running code): TLC reports %s violated; %s'
+                   % (n, conf['exit_order'], r['violated'],
+                      'real executions violating the property were found as well' if confirmed else
+                      'no explored real execution shows it (MODEL-DRIFT, not reported)'))
+            log(msg)
+            notes.append(msg)
+    cov['level2'] = l2
+
+
+def wrap_l2_id(prop, want):
+    inner = REGISTRY[prop]
+
+    def check(prop_, tier, seed):
+        res = inner(prop_, tier, seed)
+        add_level2_id(res, prop_, tier, seed, want)
+        res['assumptions'] = list(res.get('assumptions', [])) + [
+            'Level 2: IdImpl is model-checked for every hash assignment and interleaving (capacity N, N+2 threads) with the order '
+            'of the two thread-exit steps observed in the running code; bound to the code by trace validation of the flag '
+            'operations (IdImplTrace)']
+        return res
+    REGISTRY[prop] = check
+
+
+wrap_l2_id('C05', {'UniqueIDs', 'InRange'})
+wrap_l2_id('C14', {'FlagsOK', 'FreeAtEnd', 'NoDeadlock', 'GetsID', 'Termination'})
+wrap_l2_id('C15', {'HBUnique', 'HBAlive', 'HBDead'})
